@@ -1,4 +1,4 @@
-import MxlVerif.Lemmas.C20Real
+import MxlVerif.Lemmas.C20Cos
 /-!
 C20 — fitting: losses measure discrepancy; fits are honest and spare the input.
 The loss definitions are `Mxl.C20.Gen.*`, written by translate/c20.py from the current fit/losses.py; the driver
@@ -149,52 +149,60 @@ theorem C20_mean_squared_logarithmic_not_scale_rewarded (d : List ℝ) (hd : ∀
   rw [((C20_mean_squared_logarithmic_nonneg_zero_iff d d rfl hd' hd').2).mpr rfl] at h2
   exact absurd this (not_le.mpr h2)
 
-/-! ### the two shipped functions that are NOT discrepancy measures -/
+/-! ### cosine_similarity: minus the cosine of the angle between data and prediction (after the repair) -/
 
-/-- F-C20-1  `cosine_similarity d p = −‖d‖·‖p‖`: scaling the data-shaped prediction up by any factor > 1 makes
-the "loss" strictly smaller than at the data itself — for every non-zero data vector. -/
-theorem C20_cosine_similarity_rewards_scale (d : List ℝ) (hd : ∃ x ∈ d, x ≠ 0) (lam : ℝ) (hlam : 1 < lam) :
-    cosine_similarity d (vmap (lam * ·) d) < cosine_similarity d d := by
-  have hs : 0 < vsum (vsquare d) := by
-    have hnn : ∀ z ∈ vsquare d, 0 ≤ z := by
-      intro z hz; simp only [vsquare, List.mem_map] at hz; obtain ⟨x, _, rfl⟩ := hz; exact mul_self_nonneg x
-    rcases lt_or_eq_of_le (vsum_nonneg _ hnn) with h | h
-    · exact h
-    · exfalso
-      obtain ⟨x, hx, hx0⟩ := hd
-      have := (vsum_eq_zero_iff _ hnn).mp h.symm (x * x) (by simp only [vsquare, List.mem_map]; exact ⟨x, hx, rfl⟩)
-      exact hx0 (mul_self_eq_zero.mp this)
-  have hn : 0 < norm2 d := Real.sqrt_pos.mpr hs
-  have hscale : norm2 (vmap (lam * ·) d) = lam * norm2 d := by
-    show Real.sqrt _ = lam * Real.sqrt _
-    rw [vsum_vsquare_scale, Real.sqrt_mul (mul_self_nonneg lam), Real.sqrt_mul_self (by linarith)]
+/-- what the driver evaluates at `Rat` (`cosineParts`) determines the generated definition: minus the inner
+product over the product of the roots of the squared norms -/
+theorem C20_cosine_similarity_from_parts (d p : List ℝ) :
+    cosine_similarity d p =
+      -(cosineParts d p).1 / (Real.sqrt (cosineParts d p).2.1 * Real.sqrt (cosineParts d p).2.2) := rfl
+
+/-- at the data the loss is −1 (any data vector with a non-zero entry) -/
+theorem C20_cosine_similarity_at_data (d : List ℝ) (hd : ∃ x ∈ d, x ≠ 0) : cosine_similarity d d = -1 := by
+  have hn := norm2_pos d hd
   unfold cosine_similarity
-  rw [hscale]
+  rw [vmul_self, ← norm2_mul_self d, neg_div, div_self (ne_of_gt (mul_pos hn hn))]
+
+/-- MINIMAL AT THE DATA (Cauchy–Schwarz): no prediction scores below the prediction that reproduces the data.
+Zero vectors are excluded on both sides: Python returns NaN there, the totalised division of ℝ would return 0. -/
+theorem C20_cosine_similarity_minimal_at_data (d p : List ℝ) (hd : ∃ x ∈ d, x ≠ 0) (hp : ∃ y ∈ p, y ≠ 0) :
+    cosine_similarity d d ≤ cosine_similarity d p := by
+  rw [C20_cosine_similarity_at_data d hd]
+  have hpos : 0 < norm2 d * norm2 p := mul_pos (norm2_pos d hd) (norm2_pos p hp)
+  unfold cosine_similarity
+  rw [le_div_iff₀ hpos]
+  have := inner_le_norm_mul_norm d p
+  linarith
+
+/-- SCALE INVARIANT: making the prediction larger by any positive factor does not change the loss … -/
+theorem C20_cosine_similarity_scale_invariant (d p : List ℝ) (lam : ℝ) (hlam : 0 < lam) :
+    cosine_similarity d (vmap (lam * ·) p) = cosine_similarity d p := by
+  unfold cosine_similarity
+  rw [norm2_scale lam (le_of_lt hlam), vsum_vmul_scale]
+  have : lam ≠ 0 := ne_of_gt hlam
+  by_cases h : norm2 d * norm2 p = 0
+  · rw [h, show norm2 d * (lam * norm2 p) = lam * (norm2 d * norm2 p) by ring, h]; simp
+  · field_simp
+
+/-- … so it is never rewarded below the value at the data -/
+theorem C20_cosine_similarity_not_scale_rewarded (d : List ℝ) (hd : ∃ x ∈ d, x ≠ 0) :
+    ¬ ∃ p : List ℝ, (∃ y ∈ p, y ≠ 0) ∧
+      ∀ lam : ℝ, 1 < lam → cosine_similarity d (vmap (lam * ·) p) < cosine_similarity d d := by
+  rintro ⟨p, hp, h⟩
+  have h2 := h 2 (by norm_num)
+  rw [C20_cosine_similarity_scale_invariant d p 2 (by norm_num)] at h2
+  exact absurd (C20_cosine_similarity_minimal_at_data d p hd hp) (not_le.mpr h2)
+
+/-- F-C20-1 (historical, why the repair exists): the pinned tree computed `−‖d‖·‖p‖`; scaling the data-shaped
+prediction up by any factor > 1 made the "loss" strictly smaller than at the data — for every non-zero data vector -/
+theorem C20_pinned_cosine_rewards_scale (d : List ℝ) (hd : ∃ x ∈ d, x ≠ 0) (lam : ℝ) (hlam : 1 < lam) :
+    pinnedCosine d (vmap (lam * ·) d) < pinnedCosine d d := by
+  have hn : 0 < norm2 d := norm2_pos d hd
+  unfold pinnedCosine
+  rw [norm2_scale lam (by linarith)]
   nlinarith [mul_pos hn hn]
 
-/-- the round-0 witness: −14 at the data [1,2,3], −140 at ten times the data -/
-theorem C20_cosine_similarity_witness :
-    cosine_similarity ([1, 2, 3] : List ℝ) [1, 2, 3] = -14 ∧
-    cosine_similarity ([1, 2, 3] : List ℝ) [10, 20, 30] = -140 := by
-  have h14 : Real.sqrt 14 * Real.sqrt 14 = 14 := Real.mul_self_sqrt (by norm_num)
-  have h1400 : Real.sqrt 1400 = 10 * Real.sqrt 14 := by
-    rw [show (1400 : ℝ) = 10 * 10 * 14 by norm_num, Real.sqrt_mul (by norm_num), Real.sqrt_mul_self (by norm_num)]
-  have a : norm2 ([1, 2, 3] : List ℝ) = Real.sqrt 14 := by
-    show Real.sqrt _ = _; congr 1; simp [vsquare, vsum]; norm_num
-  have b : norm2 ([10, 20, 30] : List ℝ) = Real.sqrt 1400 := by
-    show Real.sqrt _ = _; congr 1; simp [vsquare, vsum]; norm_num
-  unfold cosine_similarity
-  rw [a, b, h1400]
-  constructor <;> nlinarith
-
-/-- negation of the property for cosine_similarity: it is negative at the data and has no minimum there -/
-theorem C20_cosine_similarity_not_a_discrepancy :
-    ¬ ∀ d p : List ℝ, d.length = p.length →
-        0 ≤ cosine_similarity d p ∧ (cosine_similarity d p = 0 ↔ p = d) := by
-  intro h
-  have := (h [1, 2, 3] [1, 2, 3] rfl).1
-  rw [C20_cosine_similarity_witness.1] at this
-  norm_num at this
+/-! ### the shipped function that is NOT a discrepancy measure -/
 
 section field
 variable {α : Type} [Field α] [LinearOrder α] [IsStrictOrderedRing α]
@@ -279,17 +287,54 @@ end field
 
 /-! ### the property at full strength over the shipped set, its negation, and the partial form -/
 
-/-- FULL STATEMENT IS FALSE on the unchanged code: not every shipped loss is a discrepancy measure -/
-theorem C20_not_all_shipped_losses_good : ¬ ∀ n ∈ Gen.shipped, GoodLoss n := by
+/-- FULL STATEMENT IS FALSE on the unchanged code: not every shipped loss is minimal at the data (F-C20-2:
+`mean` of data [1] is 0 at the data and −100 at the prediction [101]) -/
+theorem C20_not_all_shipped_losses_minimal : ¬ ∀ n ∈ Gen.shipped, MinimalAtData n := by
   intro h
-  obtain ⟨L, dD, dP, hL, hgood⟩ := h "cosine_similarity" (by simp [Gen.shipped])
+  obtain ⟨L, dD, dP, hL, hmin⟩ := h "mean" (by simp [Gen.shipped])
   simp only [lossReal, Option.some.injEq, LossSpec.mk.injEq] at hL
   obtain ⟨rfl, rfl, rfl⟩ := hL
-  have := (hgood [1, 2, 3] [1, 2, 3] rfl (fun _ _ => trivial) (fun _ _ => trivial)).1
-  rw [C20_cosine_similarity_witness.1] at this
-  norm_num at this
+  have h1 := hmin [1] (vmap (· + 100) [1]) (by simp [vmap]) trivial trivial
+  rw [C20_mean_rewards_large_predictions [1] (by simp) 100] at h1
+  have h0 : Gen.mean ([1] : List ℝ) [1] = 0 := by simp [Gen.mean, vmean, vsub, vsum]
+  rw [h0] at h1
+  linarith
 
-/-- ... and it holds for every shipped loss except the two findings (F-C20-1 cosine_similarity, F-C20-2 mean) -/
+/-- ... and it holds for every shipped loss except the one finding (F-C20-2 mean): each is smallest, on its
+domain, when the prediction reproduces the data -/
+theorem C20_shipped_losses_minimal_at_data_partial :
+    ∀ n ∈ Gen.shipped, n ≠ "mean" → MinimalAtData n := by
+  intro n hn h2
+  simp only [Gen.shipped, List.mem_cons, List.mem_nil_iff, or_false] at hn
+  rcases hn with rfl | rfl | rfl | rfl | rfl | rfl | rfl
+  · exact ⟨_, _, _, rfl, fun d p _ hd hp => C20_cosine_similarity_minimal_at_data d p hd hp⟩
+  · exact GoodLoss.minimal ⟨_, _, _, rfl, fun d p hl _ _ => C20_mae_nonneg_zero_iff (fun _ => rfl) d p hl⟩
+      (fun _ _ _ h => by simp only [lossReal, Option.some.injEq, LossSpec.mk.injEq] at h; obtain ⟨_, _, rfl⟩ := h; intros; trivial)
+  · exact absurd rfl h2
+  · exact GoodLoss.minimal ⟨_, _, _, rfl, fun d p hl hd _ =>
+        C20_mean_absolute_percentage_nonneg_zero_iff (fun _ => rfl) d p hl hd⟩
+      (fun _ _ _ h => by simp only [lossReal, Option.some.injEq, LossSpec.mk.injEq] at h; obtain ⟨_, _, rfl⟩ := h; intros; trivial)
+  · exact GoodLoss.minimal ⟨_, _, _, rfl, fun d p hl _ _ => C20_mean_squared_nonneg_zero_iff d p hl⟩
+      (fun _ _ _ h => by simp only [lossReal, Option.some.injEq, LossSpec.mk.injEq] at h; obtain ⟨_, _, rfl⟩ := h; intros; trivial)
+  · exact GoodLoss.minimal ⟨_, _, _, rfl, fun d p hl hd hp => C20_mean_squared_logarithmic_nonneg_zero_iff d p hl hd hp⟩
+      (fun _ _ _ h => by
+        simp only [lossReal, Option.some.injEq, LossSpec.mk.injEq] at h
+        obtain ⟨_, rfl, rfl⟩ := h; intro d hd; exact hd)
+  · exact GoodLoss.minimal ⟨_, _, _, rfl, fun d p hl _ _ => C20_rmse_nonneg_zero_iff d p hl⟩
+      (fun _ _ _ h => by simp only [lossReal, Option.some.injEq, LossSpec.mk.injEq] at h; obtain ⟨_, _, rfl⟩ := h; intros; trivial)
+
+/-- the second clause is a corollary of the first for EVERY loss: a loss that is minimal at the data cannot score
+a scaled-up prediction below the data's own score (as long as the scaled prediction stays in the domain) -/
+theorem C20_minimal_at_data_not_scale_rewarded (n : String) (h : MinimalAtData n) :
+    ∃ L domD domP, lossReal n = some ⟨L, domD, domP⟩ ∧
+      ∀ (d p : List ℝ) (lam : ℝ), d.length = p.length → domD d → domP (vmap (lam * ·) p) →
+        ¬ L d (vmap (lam * ·) p) < L d d := by
+  obtain ⟨L, domD, domP, hL, hmin⟩ := h
+  exact ⟨L, domD, domP, hL, fun d p lam hl hd hp =>
+    not_lt.mpr (hmin d _ (by simp [vmap, hl]) hd hp)⟩
+
+/-- the five zero-based losses: never negative, zero exactly at the data (cosine_similarity is minimal at −1 on the
+whole ray through the data, `mean` is the finding) -/
 theorem C20_shipped_losses_good_partial :
     ∀ n ∈ Gen.shipped, n ≠ "cosine_similarity" → n ≠ "mean" → GoodLoss n := by
   intro n hn h1 h2
@@ -305,7 +350,7 @@ theorem C20_shipped_losses_good_partial :
   · exact ⟨_, _, _, rfl, fun d p hl _ _ => C20_rmse_nonneg_zero_iff d p hl⟩
 
 /-- non-vacuity of the partial form: the default loss of all three fit routines satisfies its hypothesis -/
-example : "rmse" ∈ Gen.shipped ∧ "rmse" ≠ "cosine_similarity" ∧ "rmse" ≠ "mean" ∧
+example : "rmse" ∈ Gen.shipped ∧ "rmse" ≠ "cosine_similarity" ∧ "rmse" ≠ "mean" ∧ "cosine_similarity" ≠ "mean" ∧
     Gen.defaultLoss = ["losses.rmse", "losses.rmse", "losses.rmse"] := by
   simp [Gen.shipped, Gen.defaultLoss]
 
